@@ -167,24 +167,20 @@ theorem foldOptMax_getD : ∀ (m : PMap) (d : Option Nat),
     simp only [List.map_cons, List.foldl_cons, ih, supKeys, optMax_getD, Option.getD_some]
     omega
 
-/-- `crsql_db_versions` after the `process_empty_version` calls of one batch -/
-def dbvAfter (max0 dbv : Option Nat) (rs : List (Nat × Nat)) : Option Nat :=
-  rs.foldl (fun d r => if optLt max0 r.2 then setDbVersion d r.2 else d) dbv
-
 theorem dbvAfter_none (dbv : Option Nat) (rs : List (Nat × Nat)) (hne : rs ≠ []) :
     dbvAfter none dbv rs = some (max (dbv.getD 0) (supHi rs)) := by
   unfold dbvAfter
-  simp only [optLt, if_true, setDbVersion]
+  simp only [optLe, if_true, setDbVersion]
   exact optMax_fold rs dbv hne
 
 theorem dbvAfter_cons (m0 : Nat) (dbv : Option Nat) (r : Nat × Nat) (t : List (Nat × Nat)) :
-    dbvAfter (some m0) dbv (r :: t) = dbvAfter (some m0) (if m0 < r.2 then optMax dbv r.2 else dbv) t := by
-  simp [dbvAfter, optLt, setDbVersion]
+    dbvAfter (some m0) dbv (r :: t) = dbvAfter (some m0) (if m0 ≤ r.2 then optMax dbv r.2 else dbv) t := by
+  simp [dbvAfter, optLe, setDbVersion]
 
-/-- largest end among the ranges that end above `m0` (0 if none) -/
+/-- largest end among the ranges that end at or above `m0` (0 if none) -/
 def supIf (m0 : Nat) : List (Nat × Nat) → Nat
   | [] => 0
-  | r :: t => max (if m0 < r.2 then r.2 else 0) (supIf m0 t)
+  | r :: t => max (if m0 ≤ r.2 then r.2 else 0) (supIf m0 t)
 
 theorem dbvAfter_getD (m0 : Nat) : ∀ (rs : List (Nat × Nat)) (dbv : Option Nat),
     (dbvAfter (some m0) dbv rs).getD 0 = max (dbv.getD 0) (supIf m0 rs) := by
@@ -194,48 +190,48 @@ theorem dbvAfter_getD (m0 : Nat) : ∀ (rs : List (Nat × Nat)) (dbv : Option Na
   | cons r t ih =>
     intro dbv
     rw [dbvAfter_cons, ih]
-    by_cases hr : m0 < r.2
+    by_cases hr : m0 ≤ r.2
     · simp only [hr, if_true, supIf, optMax_getD, Option.getD_some]; omega
     · simp only [hr, if_false, supIf]; omega
 
 theorem dbvAfter_eq_none (m0 : Nat) : ∀ (rs : List (Nat × Nat)) (dbv : Option Nat),
-    (dbvAfter (some m0) dbv rs = none ↔ dbv = none ∧ supIf m0 rs = 0) := by
+    (dbvAfter (some m0) dbv rs = none ↔ dbv = none ∧ ∀ r ∈ rs, r.2 < m0) := by
   intro rs
   induction rs with
-  | nil => intro dbv; simp [dbvAfter, supIf]
+  | nil => intro dbv; simp [dbvAfter]
   | cons r t ih =>
     intro dbv
     rw [dbvAfter_cons, ih]
-    by_cases hr : m0 < r.2
-    · simp only [hr, if_true, supIf]
+    by_cases hr : m0 ≤ r.2
+    · simp only [hr, if_true]
       have := optMax_ne_none dbv r.2
       constructor
       · rintro ⟨h1, _⟩; exact absurd h1 this
-      · rintro ⟨_, h2⟩; omega
-    · simp only [hr, if_false, supIf]
+      · rintro ⟨_, h2⟩; have := h2 r (by simp); omega
+    · simp only [hr, if_false, List.mem_cons, forall_eq_or_imp]
       constructor
-      · rintro ⟨h1, h2⟩; exact ⟨h1, by omega⟩
-      · rintro ⟨h1, h2⟩; exact ⟨h1, by omega⟩
+      · rintro ⟨h1, h2⟩; exact ⟨h1, by omega, h2⟩
+      · rintro ⟨h1, _, h2⟩; exact ⟨h1, h2⟩
 
-theorem supIf_le (m0 : Nat) (rs : List (Nat × Nat)) (h : supHi rs ≤ m0) : supIf m0 rs = 0 := by
+theorem supIf_lt (m0 : Nat) (rs : List (Nat × Nat)) (h : supHi rs < m0) : supIf m0 rs = 0 := by
   induction rs with
   | nil => rfl
   | cons r t ih =>
     simp only [supHi] at h
-    have hr : ¬ m0 < r.2 := by omega
+    have hr : ¬ m0 ≤ r.2 := by omega
     simp only [supIf, hr, if_false, ih (by omega)]; omega
 
-theorem supIf_gt (m0 : Nat) (rs : List (Nat × Nat)) (h : m0 < supHi rs) : supIf m0 rs = supHi rs := by
+theorem supIf_ge (m0 : Nat) (rs : List (Nat × Nat)) (h : m0 ≤ supHi rs) : supIf m0 rs = supHi rs := by
   induction rs with
-  | nil => simp [supHi] at h
+  | nil => simp [supHi] at h; simp [supIf, supHi]
   | cons r t ih =>
     simp only [supHi] at h ⊢
     simp only [supIf]
-    by_cases hr : m0 < r.2
-    · by_cases ht : m0 < supHi t
+    by_cases hr : m0 ≤ r.2
+    · by_cases ht : m0 ≤ supHi t
       · simp only [hr, if_true, ih ht]
-      · simp only [hr, if_true, supIf_le m0 t (by omega)]; omega
-    · have ht : m0 < supHi t := by omega
+      · simp only [hr, if_true, supIf_lt m0 t (by omega)]; omega
+    · have ht : m0 ≤ supHi t := by omega
       simp only [hr, if_false, ih ht]; omega
 
 /-! ### the state invariant -/
@@ -278,13 +274,153 @@ theorem supKeys_le {m : PMap} {e : Nat × Partial} (h : e ∈ m) : e.1 ≤ supKe
     · omega
     · have := ih h; omega
 
-/-! ### opInsert -/
+/-! ### whole versions (`Changeset::Empty`, complete changesets) -/
 
-theorem opInsert_inv {L : Nat → Nat} {st : Node} (h : Inv L st) {rs : List (Nat × Nat)}
+theorem keysFrom_filter {lb : Nat} {m : PMap} (h : KeysFrom lb m) (f : Nat × Partial → Bool) :
+    KeysFrom lb (m.filter f) := by
+  induction m generalizing lb with
+  | nil => simp [KeysFrom]
+  | cons e t ih =>
+    simp only [KeysFrom] at h
+    simp only [List.filter_cons]
+    split
+    · simp only [KeysFrom]; exact ⟨h.1, ih h.2⟩
+    · exact keysFrom_mono (ih h.2) (by omega)
+
+theorem foldl_pmRemoveRange (rs : List (Nat × Nat)) : ∀ (P : PMap),
+    rs.foldl pmRemoveRange P = P.filter (fun e => !coveredBy rs e.1) := by
+  induction rs with
+  | nil =>
+    intro P
+    simp only [List.foldl_nil, coveredBy, List.any_nil, Bool.not_false]
+    exact (List.filter_eq_self.mpr (fun _ _ => rfl)).symm
+  | cons r t ih =>
+    intro P
+    simp only [List.foldl_cons, ih, pmRemoveRange, List.filter_filter]
+    apply List.filter_congr
+    intro e _
+    simp only [coveredBy, List.any_cons, Bool.not_or]
+    rw [Bool.and_comm]
+
+theorem filter_tagRows (f : Nat → Bool) (v l : Nat) (s : RSet) :
+    (tagRows v l s).filter (fun row => f row.1) = if f v then tagRows v l s else [] := by
+  by_cases hf : f v = true
+  · simp only [hf, if_true]
+    apply List.filter_eq_self.mpr
+    intro row hrow
+    simp only [tagRows, List.mem_map] at hrow
+    obtain ⟨_, _, rfl⟩ := hrow
+    exact hf
+  · simp only [hf, Bool.false_eq_true, if_false]
+    apply List.filter_eq_nil_iff.mpr
+    intro row hrow
+    simp only [tagRows, List.mem_map] at hrow
+    obtain ⟨_, _, rfl⟩ := hrow
+    exact hf
+
+theorem seqRowsOf_filter (f : Nat → Bool) (P : PMap) :
+    seqRowsOf (P.filter (fun e => f e.1)) = (seqRowsOf P).filter (fun row => f row.1) := by
+  induction P with
+  | nil => simp [seqRowsOf]
+  | cons e t ih =>
+    simp only [seqRowsOf, List.filter_append, filter_tagRows, List.filter_cons]
+    by_cases hf : f e.1 = true
+    · simp only [hf, if_true, seqRowsOf, ih]
+    · simp only [hf, Bool.false_eq_true, if_false, ih, List.nil_append]
+
+theorem supKeys_filter_le (P : PMap) (f : Nat × Partial → Bool) : supKeys (P.filter f) ≤ supKeys P := by
+  induction P with
+  | nil => simp [supKeys]
+  | cons e t ih =>
+    simp only [List.filter_cons]
+    split
+    · simp only [supKeys]; omega
+    · simp only [supKeys]; omega
+
+theorem supKeys_attained {P : PMap} (h : P ≠ []) : ∃ e ∈ P, e.1 = supKeys P := by
+  induction P with
+  | nil => exact absurd rfl h
+  | cons a t ih =>
+    simp only [supKeys]
+    by_cases ht : t = []
+    · subst ht; exact ⟨a, by simp, by simp [supKeys]⟩
+    · obtain ⟨e, he, hee⟩ := ih ht
+      by_cases hle : supKeys t ≤ a.1
+      · exact ⟨a, by simp, by omega⟩
+      · exact ⟨e, by simp [he], by omega⟩
+
+theorem coveredBy_iff (rs : List (Nat × Nat)) (v : Nat) :
+    coveredBy rs v = true ↔ ∃ r ∈ rs, r.1 ≤ v ∧ v ≤ r.2 := by
+  simp [coveredBy]
+
+/-- the head after a batch of whole versions: still the larger of the db-version row and the
+remaining partial versions -/
+theorem head_after_whole {L : Nat → Nat} {st : Node} (h : Inv L st) {rs : List (Nat × Nat)}
+    (hne : rs ≠ []) :
+    max (st.book.max.getD 0) (supHi rs) =
+      max ((dbvAfter st.book.max st.db.dbv rs).getD 0)
+        (supKeys (st.book.partials.filter (fun e => !coveredBy rs e.1))) ∧
+    ¬ (dbvAfter st.book.max st.db.dbv rs = none ∧
+        st.book.partials.filter (fun e => !coveredBy rs e.1) = []) := by
+  have hfl := supKeys_filter_le st.book.partials (fun e => !coveredBy rs e.1)
+  have h1 := h.head1
+  cases hm : st.book.max with
+  | none =>
+    have := h.head2.mp hm
+    rw [dbvAfter_none _ _ hne, this.1, this.2]
+    simp [supKeys]
+  | some m0 =>
+    rw [hm] at h1
+    simp only [Option.getD_some] at h1 ⊢
+    rw [dbvAfter_getD]
+    by_cases hle : m0 ≤ supHi rs
+    · rw [supIf_ge _ _ hle]
+      refine ⟨by omega, ?_⟩
+      rintro ⟨hn, _⟩
+      obtain ⟨r, hr, he⟩ := supHi_attained hne
+      have := ((dbvAfter_eq_none m0 rs st.db.dbv).mp hn).2 r hr
+      omega
+    · rw [supIf_lt _ _ (by omega)]
+      -- nothing is written; if the head is a partial version, no range reaches it
+      have hkeep : ∀ e ∈ st.book.partials, e.1 = m0 →
+          e ∈ st.book.partials.filter (fun e => !coveredBy rs e.1) := by
+        intro e he hem
+        apply List.mem_filter.mpr
+        refine ⟨he, ?_⟩
+        cases hc : coveredBy rs e.1 with
+        | false => rfl
+        | true =>
+          obtain ⟨r, hr, _, hr2⟩ := (coveredBy_iff rs e.1).mp hc
+          have := le_supHi hr
+          omega
+      by_cases hd : supKeys st.book.partials ≤ st.db.dbv.getD 0
+      · refine ⟨by omega, ?_⟩
+        rintro ⟨hn, hnil⟩
+        have hdn := ((dbvAfter_eq_none m0 rs st.db.dbv).mp hn).1
+        -- dbv = none: the head must be a partial version, which is kept
+        have hP : st.book.partials ≠ [] := by
+          intro hp
+          have := h.head2.mpr ⟨hdn, hp⟩
+          rw [hm] at this; cases this
+        obtain ⟨e, he, hee⟩ := supKeys_attained hP
+        have hge := keysFrom_forall h.keys e he
+        rw [hdn] at hd h1
+        simp at hd h1
+        omega
+      · have hP : st.book.partials ≠ [] := by
+          intro hp; rw [hp] at hd; simp [supKeys] at hd
+        obtain ⟨e, he, hee⟩ := supKeys_attained hP
+        have hin := hkeep e he (by omega)
+        have := supKeys_le hin
+        refine ⟨by omega, ?_⟩
+        rintro ⟨_, hnil⟩
+        rw [hnil] at hin; cases hin
+
+theorem wholeVersions_inv {L : Nat → Nat} {st : Node} (h : Inv L st) {rs : List (Nat × Nat)}
     (hne : rs ≠ []) (hrs : ∀ r ∈ rs, 1 ≤ r.1 ∧ r.1 ≤ r.2) :
-    ∃ st', opInsert st rs = .ok st' ∧ Inv L st' ∧
+    ∃ st', wholeVersions st rs = .ok st' ∧ Inv L st' ∧
       st'.book.max = some (max (st.book.max.getD 0) (supHi rs)) ∧
-      st'.book.partials = st.book.partials ∧
+      st'.book.partials = st.book.partials.filter (fun e => !coveredBy rs e.1) ∧
       (∀ x, Mem st'.book.needed x ↔
         (Mem st.book.needed x ∨ (st.book.max.getD 0 + 1 ≤ x ∧ x ≤ supHi rs)) ∧
           ¬ ∃ r ∈ rs, r.1 ≤ x ∧ x ≤ r.2) := by
@@ -298,21 +434,29 @@ theorem opInsert_inv {L : Nat → Nat} {st : Node} (h : Inv L st) {rs : List (Na
       (Mem st.book.needed x ∨ (st.book.max.getD 0 + 1 ≤ x ∧ x ≤ supHi rs)) ∧
         ¬ ∃ r ∈ rs, r.1 ≤ x ∧ x ≤ r.2 := by
     intro x; rw [e4 x, mem_ofList hf x]
-  refine ⟨⟨b', { st.db with gaps := b'.needed, dbv := dbvAfter st.book.max st.db.dbv rs }⟩, ?_, ?_, e3,
-    hpart, hmem⟩
-  · unfold opInsert
+  have hparts : rs.foldl pmRemoveRange b'.partials =
+      st.book.partials.filter (fun e => !coveredBy rs e.1) := by
+    rw [foldl_pmRemoveRange, hpart]
+  have hmaxd : b'.max.getD 0 = max (st.book.max.getD 0) (supHi rs) := by rw [e3]; rfl
+  obtain ⟨hh1, hh2⟩ := head_after_whole h (rs := rs) hne
+  refine ⟨⟨{ b' with partials := rs.foldl pmRemoveRange b'.partials },
+      { gaps := b'.needed, seqs := st.db.seqs.filter (fun row => !coveredBy rs row.1),
+        dbv := dbvAfter st.book.max st.db.dbv rs }⟩, ?_, ?_, e3, hparts, hmem⟩
+  · unfold wholeVersions
     simp only [e1]
-    rfl
-  · have hmaxd : b'.max.getD 0 = max (st.book.max.getD 0) (supHi rs) := by rw [e3]; rfl
-    refine ⟨⟨e2, rfl, ?_⟩, ?_, ?_, ?_, ?_, ?_, ?_⟩
+  · refine ⟨⟨e2, rfl, ?_⟩, ?_, ?_, ?_, ?_, ?_, ?_⟩
     · intro x hx
       show 1 ≤ x ∧ x < b'.max.getD 0
       rw [hmaxd, ← hsup]
       apply insertDb_inside h.gaps.inside hS
-      rw [hsup]; exact (e4 x |>.mp (by rw [← hsup] at e4; exact hx))
-    · show KeysFrom 1 b'.partials; rw [hpart]; exact h.keys
+      rw [hsup]; exact (hmem x |>.mp hx) |> fun hh => by
+        rw [← mem_ofList hf x] at hh; exact hh
+    · show KeysFrom 1 (rs.foldl pmRemoveRange b'.partials)
+      rw [hparts]; exact keysFrom_filter h.keys _
     · intro e he
-      have he' : e ∈ st.book.partials := by rw [← hpart]; exact he
+      have he' : e ∈ st.book.partials := by
+        have : e ∈ st.book.partials.filter (fun e => !coveredBy rs e.1) := by rw [← hparts]; exact he
+        exact (List.mem_filter.mp this).1
       have := h.pin e he'
       show e.1 ≤ b'.max.getD 0 ∧ ¬ Mem b'.needed e.1
       rw [hmaxd, hmem]
@@ -321,36 +465,149 @@ theorem opInsert_inv {L : Nat → Nat} {st : Node} (h : Inv L st) {rs : List (Na
       · exact this.2 h1
       · omega
     · intro e he
-      exact h.pwf e (by rw [← hpart]; exact he)
-    · show st.db.seqs = seqRowsOf b'.partials; rw [hpart]; exact h.seqrows
-    · show b'.max.getD 0 = max ((dbvAfter st.book.max st.db.dbv rs).getD 0) (supKeys b'.partials)
-      rw [hmaxd, hpart]
-      have h1 := h.head1
-      cases hm : st.book.max with
-      | none =>
-        have := h.head2.mp hm
-        rw [dbvAfter_none _ _ hne, this.1, this.2]
-        simp [supKeys]
-      | some m0 =>
-        rw [hm] at h1
-        simp only [Option.getD_some] at h1 ⊢
-        rw [dbvAfter_getD]
-        by_cases hle : supHi rs ≤ m0
-        · rw [supIf_le _ _ hle]; omega
-        · rw [supIf_gt _ _ (by omega)]; omega
-    · show b'.max = none ↔ _
-      rw [e3]
+      have : e ∈ st.book.partials.filter (fun e => !coveredBy rs e.1) := by rw [← hparts]; exact he
+      exact h.pwf e (List.mem_filter.mp this).1
+    · show st.db.seqs.filter (fun row => !coveredBy rs row.1) = seqRowsOf (rs.foldl pmRemoveRange b'.partials)
+      rw [hparts, h.seqrows]
+      exact (seqRowsOf_filter (fun v => !coveredBy rs v) st.book.partials).symm
+    · show b'.max.getD 0 = max ((dbvAfter st.book.max st.db.dbv rs).getD 0)
+        (supKeys (rs.foldl pmRemoveRange b'.partials))
+      rw [hmaxd, hparts]; exact hh1
+    · show b'.max = none ↔ dbvAfter st.book.max st.db.dbv rs = none ∧ rs.foldl pmRemoveRange b'.partials = []
+      rw [e3, hparts]
       constructor
       · intro hh; cases hh
-      · rintro ⟨h1, h2⟩
-        exfalso
-        cases hm : st.book.max with
-        | none => rw [hm, dbvAfter_none _ _ hne] at h1; cases h1
-        | some m0 =>
-          rw [hm] at h1
-          have h1' := (dbvAfter_eq_none m0 rs st.db.dbv).mp h1
-          have := h.head2.mpr ⟨h1'.1, by rw [← hpart]; exact h2⟩
-          rw [hm] at this; cases this
+      · intro hh; exact absurd hh hh2
+
+/-! ### the `contains_all` guard -/
+
+theorem containsVersion_iff (b : Book) (x : Nat) :
+    containsVersion b x = true ↔ ¬ Mem b.needed x ∧ x ≤ b.max.getD 0 := by
+  unfold containsVersion
+  have := contains_iff b.needed x
+  unfold RSet.contains at this
+  cases hb : b.needed.any (fun r => decide (r.1 ≤ x) && decide (x ≤ r.2)) with
+  | true =>
+    have hm := this.mp hb
+    simp [hm]
+  | false =>
+    have hm : ¬ Mem b.needed x := fun hh => by rw [this.mpr hh] at hb; cases hb
+    simp [hm]
+
+theorem containsAll_true {b : Book} {r : Nat × Nat} {s : Option (Nat × Nat)}
+    (h : containsAll b r s = true) : ∀ x, r.1 ≤ x → x ≤ r.2 → contains b x s = true := by
+  intro x h1 h2
+  unfold containsAll at h
+  rw [List.all_eq_true] at h
+  apply h x
+  rw [List.mem_range'_1]
+  omega
+
+theorem contains_version_of {b : Book} {x : Nat} {s : Option (Nat × Nat)} (h : contains b x s = true) :
+    containsVersion b x = true := by
+  unfold contains at h
+  simp only [Bool.and_eq_true] at h
+  exact h.1
+
+theorem supHi_filter_le (rs : List (Nat × Nat)) (g : Nat × Nat → Bool) : supHi (rs.filter g) ≤ supHi rs := by
+  induction rs with
+  | nil => simp [supHi]
+  | cons r t ih =>
+    simp only [List.filter_cons]
+    split
+    · simp only [supHi]; omega
+    · simp only [supHi]; omega
+
+theorem supHi_le_filter (rs : List (Nat × Nat)) (g : Nat × Nat → Bool) (bound : Nat)
+    (h : ∀ r ∈ rs, g r = false → r.2 ≤ bound) : supHi rs ≤ max bound (supHi (rs.filter g)) := by
+  induction rs with
+  | nil => simp [supHi]
+  | cons r t ih =>
+    have iht := ih (fun q hq => h q (by simp [hq]))
+    simp only [List.filter_cons]
+    by_cases hg : g r = true
+    · simp only [hg, if_true, supHi]; omega
+    · have hg' : g r = false := by simpa using hg
+      have := h r (by simp) hg'
+      simp only [hg', Bool.false_eq_true, if_false, supHi]; omega
+
+/-- one batch of whole versions, whatever the guard drops -/
+theorem opInsert_inv {L : Nat → Nat} {st : Node} (h : Inv L st) {rs : List (Nat × Nat)}
+    (hne : rs ≠ []) (hrs : ∀ r ∈ rs, 1 ≤ r.1 ∧ r.1 ≤ r.2) :
+    Inv L (step st (.ins rs)) ∧
+    (step st (.ins rs)).book.max.getD 0 = max (st.book.max.getD 0) (supHi rs) ∧
+    (step st (.ins rs)).book.partials = st.book.partials.filter
+      (fun e => !coveredBy (rs.filter (fun r => !containsAll st.book r none)) e.1) ∧
+    (∀ x, Mem (step st (.ins rs)).book.needed x ↔
+      (Mem st.book.needed x ∨ (st.book.max.getD 0 + 1 ≤ x ∧ x ≤ supHi rs)) ∧
+        ¬ ∃ r ∈ rs, r.1 ≤ x ∧ x ≤ r.2) := by
+  -- what the guard says about a dropped range
+  have hknown : ∀ r ∈ rs, (!containsAll st.book r none) = false →
+      ∀ x, r.1 ≤ x → x ≤ r.2 → ¬ Mem st.book.needed x ∧ x ≤ st.book.max.getD 0 := by
+    intro r _ hg x h1 h2
+    have hc : containsAll st.book r none = true := by simpa using hg
+    exact (containsVersion_iff _ _).mp (contains_version_of (containsAll_true hc x h1 h2))
+  have hbound : ∀ r ∈ rs, (!containsAll st.book r none) = false → r.2 ≤ st.book.max.getD 0 := by
+    intro r hr hg
+    exact (hknown r hr hg r.2 (hrs r hr).2 (Nat.le_refl _)).2
+  have hs1 := supHi_filter_le rs (fun r => !containsAll st.book r none)
+  have hs2 := supHi_le_filter rs (fun r => !containsAll st.book r none) (st.book.max.getD 0) hbound
+  by_cases hp : rs.filter (fun r => !containsAll st.book r none) = []
+  · -- everything already known: nothing happens
+    have hstep : step st (.ins rs) = st := by
+      simp only [step, opInsert, hp, List.isEmpty_nil, if_true]
+    rw [hstep, hp]
+    have hall : ∀ r ∈ rs, (!containsAll st.book r none) = false := by
+      intro r hr
+      have := List.filter_eq_nil_iff.mp hp r hr
+      simpa using this
+    simp only [hp, supHi] at hs2
+    refine ⟨h, by omega, ?_, ?_⟩
+    · simp only [coveredBy, List.any_nil, Bool.not_false]
+      exact (List.filter_eq_self.mpr (fun _ _ => rfl)).symm
+    intro x
+    constructor
+    · intro hx
+      refine ⟨Or.inl hx, ?_⟩
+      rintro ⟨r, hr, hx1, hx2⟩
+      exact (hknown r hr (hall r hr) x hx1 hx2).1 hx
+    · rintro ⟨h1 | h1, _⟩
+      · exact h1
+      · omega
+  · have hsub : ∀ r ∈ rs.filter (fun r => !containsAll st.book r none), 1 ≤ r.1 ∧ r.1 ≤ r.2 :=
+      fun r hr => hrs r (List.mem_filter.mp hr).1
+    obtain ⟨st', e1, e2, e3, e4, e5⟩ := wholeVersions_inv h hp hsub
+    have hstep : step st (.ins rs) = st' := by
+      have hemp : (rs.filter (fun r => !containsAll st.book r none)).isEmpty = false := by
+        cases hh : rs.filter (fun r => !containsAll st.book r none) with
+        | nil => exact absurd hh hp
+        | cons _ _ => rfl
+      simp only [step, opInsert, hemp, Bool.false_eq_true, if_false, e1]
+    rw [hstep]
+    refine ⟨e2, by rw [e3]; simp only [Option.getD_some]; omega, e4, ?_⟩
+    intro x
+    rw [e5 x]
+    constructor
+    · rintro ⟨h1, h2⟩
+      refine ⟨?_, ?_⟩
+      · rcases h1 with h1 | h1
+        · exact Or.inl h1
+        · exact Or.inr ⟨h1.1, by omega⟩
+      · rintro ⟨r, hr, hx1, hx2⟩
+        by_cases hg : (!containsAll st.book r none) = true
+        · exact h2 ⟨r, List.mem_filter.mpr ⟨hr, hg⟩, hx1, hx2⟩
+        · have hg' : (!containsAll st.book r none) = false := by simpa using hg
+          have := hknown r hr hg' x hx1 hx2
+          rcases h1 with h1 | h1
+          · exact this.1 h1
+          · omega
+    · rintro ⟨h1, h2⟩
+      refine ⟨?_, ?_⟩
+      · rcases h1 with h1 | h1
+        · exact Or.inl h1
+        · exact Or.inr ⟨h1.1, by omega⟩
+      · rintro ⟨r, hr, hx⟩
+        exact h2 ⟨r, (List.mem_filter.mp hr).1, hx⟩
 
 /-! ### opPartial -/
 
@@ -576,19 +833,21 @@ theorem fromConn_eq {L : Nat → Nat} {st : Node} (h : Inv L st) : fromConn st.d
 theorem step_inv {L : Nat → Nat} {st : Node} (h : Inv L st) {op : Op} (hop : OpOk L op) :
     Inv L (step st op) := by
   cases op with
-  | ins rs =>
-    obtain ⟨st', e1, e2, _⟩ := opInsert_inv h hop.1 hop.2
-    simp only [step, e1]; exact e2
+  | ins rs => exact (opInsert_inv h hop.1 hop.2).1
   | part v seqs last =>
     obtain ⟨hv, hl⟩ := hop
     subst hl
     simp only [step]
     by_cases hc : containsAll st.book (v, v) (some seqs) = true
     · simp only [opPartial, hc, if_true]; exact h
-    · by_cases hi : seqs.2 < seqs.1
-      · simp only [opPartial, hc, hi, if_true]; exact h
-      · obtain ⟨b', mg, e1, e2, e3, _⟩ := opPartial_inv h (seqs := seqs) hv (by omega)
-        simp only [opPartial, hc, hi, if_false, e2, e1]; exact e3
+    · by_cases hw : seqs.1 = 0 ∧ seqs.2 = L v
+      · obtain ⟨st', e1, e2, _⟩ := wholeVersions_inv h (rs := [(v, v)]) (by simp)
+          (by intro r hr; simp at hr; subst hr; exact ⟨hv, Nat.le_refl _⟩)
+        simp only [opPartial, hc, hw, Bool.false_eq_true, if_false, and_self, if_true, e1]; exact e2
+      · by_cases hi : seqs.2 < seqs.1
+        · simp only [opPartial, hc, hw, hi, Bool.false_eq_true, if_true, if_false]; exact h
+        · obtain ⟨b', mg, e1, e2, e3, _⟩ := opPartial_inv h (seqs := seqs) hv (by omega)
+          simp only [opPartial, hc, hw, hi, Bool.false_eq_true, if_false, e2, e1]; exact e3
   | reload =>
     simp only [step, opReload]
     rw [fromConn_eq h]
